@@ -105,7 +105,23 @@ static N_MIDSCAN_FORKS: AtomicU64 = AtomicU64::new(0);
 static N_ROOT_COMPARISONS: AtomicU64 = AtomicU64::new(0);
 static N_TABLE_COMPARISONS: AtomicU64 = AtomicU64::new(0);
 static N_SHADOW_MISMATCH: AtomicU64 = AtomicU64::new(0);
+/// shortest counterexample seen per classifier key: (history length, history, violation)
+static SHORTEST: Mutex<Option<std::collections::BTreeMap<String, (usize, String, Violation)>>> = Mutex::new(None);
+
+fn remember_shortest(v: &Violation) {
+    let h = v.replay["history"].as_array().map(|a| a.len()).unwrap_or(usize::MAX);
+    let hs = v.replay["history"].to_string();
+    let mut g = SHORTEST.lock().unwrap();
+    let m = g.get_or_insert_with(Default::default);
+    match m.get(&v.key) {
+        Some((l, s, _)) if (*l, s.as_str()) <= (h, hs.as_str()) => {}
+        _ => {
+            m.insert(v.key.clone(), (h, hs, v.clone()));
+        }
+    }
+}
 static N_INTERSECT_NOT_FOUND: AtomicU64 = AtomicU64::new(0);
+static N_INTERSECT_NOT_SENT: AtomicU64 = AtomicU64::new(0);
 
 /// What a fresh node holds and answers after importing `chain` once up to `imported_to`.
 pub struct Fresh {
@@ -219,6 +235,8 @@ struct Run<'a> {
     server: Arc<Mutex<Server>>,
     sut: Option<Sut>,
     lpp: Lpp,
+    /// lowest point of the forks the node switched to since the importer last talked to it
+    undelivered_fork_floor: Option<u64>,
     pruned: bool,
     incremental_imports: u32,
     rollbacks_applied: u32,
@@ -286,6 +304,7 @@ impl Run<'_> {
                     }
                 }
                 self.server.lock().unwrap().fork(h, 1);
+                self.undelivered_fork_floor = Some(self.undelivered_fork_floor.map_or(h, |f| f.min(h)));
                 self.outcome = "chain-forked".into();
                 true
             }
@@ -396,6 +415,9 @@ impl Run<'_> {
                     if !found && !not_sent {
                         intersect_not_found = true;
                     }
+                    if *not_sent {
+                        N_INTERSECT_NOT_SENT.fetch_add(1, Ordering::Relaxed);
+                    }
                 }
                 Served::Forward(b) => {
                     forwards_in_scan += 1;
@@ -443,6 +465,9 @@ impl Run<'_> {
         }
         if !pre.blocks.is_empty() {
             self.rollbacks_applied += real_rollbacks.len() as u32;
+        }
+        if scans > 0 {
+            self.undelivered_fork_floor = None;
         }
         // the importer keeps the streamer's last polled point of every scan that ended without error
         for (n, (l, timed_out)) in scan_lpps.iter().enumerate() {
@@ -496,8 +521,8 @@ impl Run<'_> {
         if !diffs.is_empty() {
             let first_stored = pre.min_block().map(|b| (b.0, b.1));
             let below_first = real_rollbacks.iter().any(|(_, slot)| first_stored.is_some_and(|f| *slot < f.1));
-            let on_chain: std::collections::HashSet<String> = chain.iter().map(|b| b.hash_hex()).collect();
-            let stale_blocks = node_part.blocks.iter().any(|b| !on_chain.contains(&b.2));
+            // the node switched to a fork below the target and the importer has not talked to it since
+            let undelivered_fork = scans == 0 && self.undelivered_fork_floor.is_some_and(|f| f < t);
             let only_roots_differ = node_part.blocks == expected.blocks && node_part.txs == expected.txs;
             // a roll-back into a range whose first blocks were pruned
             let into_pruned_range = self.pruned
@@ -506,7 +531,7 @@ impl Run<'_> {
                 "C13/rollback-before-first-stored-block-removes-nothing"
             } else if echo_after_forwards {
                 "C13/rollback-to-scan-start-point-ignored-mid-scan"
-            } else if scans == 0 && error.is_none() && stale_blocks {
+            } else if undelivered_fork && error.is_none() {
                 "C13/import-skipped-when-target-already-stored-misses-rollback"
             } else if into_pruned_range && only_roots_differ && error.is_none() {
                 "C13/rollback-into-partly-pruned-range-recomputes-root-from-remaining-blocks"
@@ -709,6 +734,7 @@ pub fn replay(scratch: &Path, cfg: Cfg, mode: Mode, fresh: &FreshCache, history:
             server: server.clone(),
             sut: None,
             lpp: Lpp::None,
+            undelivered_fork_floor: None,
             pruned: false,
             incremental_imports: 0,
             rollbacks_applied: 0,
@@ -734,6 +760,11 @@ pub fn replay(scratch: &Path, cfg: Cfg, mode: Mode, fresh: &FreshCache, history:
         }
         let canon = run.canon();
         let nontrivial = run.incremental_imports > 0;
+        if !disabled {
+            for v in &run.violations {
+                remember_shortest(v);
+            }
+        }
         let r = RunResult { canon, violations: std::mem::take(&mut run.violations), nontrivial, outcome: run.outcome.clone(), disabled };
         run.sut = None;
         r
@@ -828,18 +859,20 @@ pub fn run(ctx: &Ctx) -> ! {
     }
     let p1: Vec<Ev> = vec![Advance(16), Advance(16), Import(Target::Tip)];
     let p2: Vec<Ev> = vec![Advance(16), Advance(16), Advance(16), Import(Target::Abs(44)), Prune(10)];
-    let prefixes = vec![vec![], p1, p2];
+    // a node that stopped one block short of the end of a block range
+    let p3: Vec<Ev> = vec![Advance(16), Advance(16), Import(Target::Abs(28))];
+    let prefixes = vec![vec![], p1, p2, p3];
     let alpha = alphabet(!quick);
     let configs: Vec<(Cfg, usize)> = if quick {
         vec![
             (Cfg { max_roll_forwards: 3, pallas_agency: false }, 3),
-            (Cfg { max_roll_forwards: 100, pallas_agency: true }, 3),
-            (Cfg { max_roll_forwards: 1, pallas_agency: false }, 2),
+            (Cfg { max_roll_forwards: 100, pallas_agency: true }, 2),
+            (Cfg { max_roll_forwards: 1, pallas_agency: true }, 2),
         ]
     } else {
         vec![
             (Cfg { max_roll_forwards: 3, pallas_agency: false }, 4),
-            (Cfg { max_roll_forwards: 100, pallas_agency: true }, 4),
+            (Cfg { max_roll_forwards: 100, pallas_agency: true }, 3),
             (Cfg { max_roll_forwards: 1, pallas_agency: true }, 3),
             (Cfg { max_roll_forwards: 100, pallas_agency: false }, 3),
         ]
@@ -858,23 +891,47 @@ pub fn run(ctx: &Ctx) -> ! {
     // deviation ball around a nominal advance/import schedule that runs to completion
     let nom = nominal();
     let dev = alphabet(true);
-    let edits = |h: &[Ev]| standard_edits(h, &dev, 0);
+    // two simultaneous deviations: a smaller deviation alphabet (one representative per kind of event)
+    let dev2: Vec<Ev> = vec![
+        Ev::Advance(1),
+        Ev::Fork(ForkTo::TipMinus1),
+        Ev::Fork(ForkTo::BoundaryMinus1),
+        Ev::Fork(ForkTo::BoundaryPlus1),
+        Ev::ArmFork(1),
+        Ev::ArmFork(3),
+        Ev::Import(Target::TipMinus5),
+        Ev::Import(Target::Abs(28)),
+        Ev::Restart,
+        Ev::Reconnect,
+    ];
     let mut ball_info = vec![];
-    let ball_cfgs: Vec<(Cfg, usize)> = if quick {
-        vec![(Cfg { max_roll_forwards: 3, pallas_agency: true }, 1)]
+    let ball_cfgs: Vec<(Cfg, usize, &Vec<Ev>)> = if quick {
+        vec![(Cfg { max_roll_forwards: 3, pallas_agency: true }, 1, &dev)]
     } else {
-        vec![(Cfg { max_roll_forwards: 3, pallas_agency: true }, 2), (Cfg { max_roll_forwards: 100, pallas_agency: false }, 1)]
+        vec![
+            (Cfg { max_roll_forwards: 3, pallas_agency: true }, 1, &dev),
+            (Cfg { max_roll_forwards: 100, pallas_agency: false }, 1, &dev),
+            (Cfg { max_roll_forwards: 3, pallas_agency: false }, 2, &dev2),
+        ]
     };
-    for (cfg, bound) in &ball_cfgs {
+    for (cfg, bound, devs) in &ball_cfgs {
         let runf = |h: &[Ev]| replay(&scratch, *cfg, Mode::Ball, &fresh, h);
         let ex = Explorer { threads: ctx.threads(), budget: None, run: &runf };
+        let edits = |h: &[Ev]| standard_edits(h, devs, 0);
         let t0 = std::time::Instant::now();
         let st = ex.ball(&nom, &edits, *bound, &mut rep);
-        ball_info.push(json!({"cfg": cfg, "nominal_len": nom.len(), "deviation_alphabet": dev.len(), "bound_completed": st.depth_completed,
+        ball_info.push(json!({"cfg": cfg, "nominal_len": nom.len(), "deviation_alphabet": devs.len(), "bound_completed": st.depth_completed,
             "histories": st.transitions, "states": st.states, "wall_s": (t0.elapsed().as_secs_f64()*10.0).round()/10.0}));
     }
     rep.extra("ball", json!(ball_info));
 
+    // the replay file of each key leads with the shortest counterexample found
+    if let Some(m) = SHORTEST.lock().unwrap().take() {
+        for (_, (_, _, v)) in m.into_iter().rev() {
+            rep.violations.retain(|x| !(x.key == v.key && x.replay == v.replay));
+            rep.violations.insert(0, v);
+        }
+    }
     let g = |a: &AtomicU64| a.load(Ordering::Relaxed);
     rep.extra("imports_executed", json!(g(&N_IMPORTS)));
     rep.extra("imports_without_contacting_the_node", json!(g(&N_IMPORTS_NO_SCAN)));
@@ -882,6 +939,7 @@ pub fn run(ctx: &Ctx) -> ! {
     rep.extra("rollbacks_applied_to_store", json!(g(&N_ROLLBACKS_APPLIED)));
     rep.extra("rollbacks_skipped_as_intersect_echo", json!(g(&N_ROLLBACKS_ECHO)));
     rep.extra("intersects_not_found", json!(g(&N_INTERSECT_NOT_FOUND)));
+    rep.extra("intersects_not_sent_for_lack_of_agency", json!(g(&N_INTERSECT_NOT_SENT)));
     rep.extra("forks_during_a_scan", json!(g(&N_MIDSCAN_FORKS)));
     rep.extra("import_errors", json!(g(&N_IMPORT_ERRORS)));
     rep.extra("import_errors_from_node_timeout", json!(g(&N_NODE_TIMEOUTS)));
@@ -906,7 +964,7 @@ pub fn run(ctx: &Ctx) -> ! {
         "pallas_agency=true also models PallasChainReader after an AwaitReply (no FindIntersect is sent while the server has the \
          agency; if the server stays silent the reader times out, errors and reconnects); failed imports caused by that time-out are not judged",
     );
-    rep.assume("a fork always yields a chain one block longer than the one it replaces (longest-chain rule); chains <= 50 blocks, block numbers consecutive from 1");
+    rep.assume("a fork always yields a chain one block longer than the one it replaces (longest-chain rule); chains <= 50 blocks, block numbers consecutive from 1; import targets never exceed the node's tip (beacons are tip minus the security parameter, rounded down)");
     rep.assume(
         "tables are compared on the part that concerns blocks <= target (a node may legitimately hold more from an earlier, higher import); \
          after pruning the node must hold a suffix of the fresh node's blocks and exactly its range roots",
